@@ -86,7 +86,11 @@ impl<W: AsyncWrite> AsyncWrite for BufWriter<W> {
             })
             .expect("Closure always return Ok");
 
-        (_, buf) = buf_try!(self.flush_if_needed().await, buf);
+        // The bytes are already accepted into the buffer: a failure of this eager
+        // flush must not fail the write, or the caller (e.g. `write_all` on
+        // `Interrupted`) would send them twice. The error shows up again on the
+        // next write or flush.
+        let _ = self.flush_if_needed().await;
 
         BufResult(Ok(written), buf)
     }
@@ -112,7 +116,11 @@ impl<W: AsyncWrite> AsyncWrite for BufWriter<W> {
             })
             .expect("Closure always return Ok");
 
-        (_, buf) = buf_try!(self.flush_if_needed().await, buf);
+        // The bytes are already accepted into the buffer: a failure of this eager
+        // flush must not fail the write, or the caller (e.g. `write_all` on
+        // `Interrupted`) would send them twice. The error shows up again on the
+        // next write or flush.
+        let _ = self.flush_if_needed().await;
 
         BufResult(Ok(written), buf)
     }
